@@ -105,11 +105,25 @@ def _apply_extra(p, op):
         raise ValueError(k)
 
 
+class BuildFailed(Exception):
+    """the real code raised while a scenario's processor was being built through its public API"""
+    def __init__(self, op, exc):
+        super().__init__(f"{type(exc).__name__}: {str(exc)[:160]}")
+        self.op, self.exc = op, exc
+
+
+def _apply_ops(p, ops):
+    for op in ops:
+        try:
+            _apply_extra(p, op)
+        except Exception as e:  # noqa: reported by run_scenario, never swallowed
+            raise BuildFailed(op, e) from e
+
+
 def build_left(spec):
     import perceval as pcvl
     p = pcvl.Processor("SLOS", spec["cs"])
-    for op in spec["ops"]:
-        _apply_extra(p, op)
+    _apply_ops(p, spec["ops"])
     return p
 
 
@@ -134,8 +148,7 @@ def build_right(spec):
             p = pcvl.Processor("SLOS", spec["cs"])
             # heralds / ports may be declared at any (admissible) point of a piecewise construction
             rest = piecewise_order(spec)
-        for op in rest:
-            _apply_extra(p, op)
+        _apply_ops(p, rest)
         return p
     if k == "scn":  # a processor that is itself the result of compositions (its inner scenario is checked as a
         # case of its own by run(); here a failure of the inner construction only invalidates the outer case)
@@ -605,12 +618,12 @@ DEFECT_TEXT = {
 }
 
 
-def run_step(p, L, lps, st, ask, reuse_obj=None):
+def run_step(p, L, lps, st, ask, reuse_obj=None, R_pre=None):
     """Performs one add on the real processor `p` (state `L` observed before, model PS `lps`).
     -> (failure or None, new L, new model ps, info)"""
     ms, keep_port = st["map"], st.get("keep_port", True)
     right = reuse_obj if reuse_obj is not None else build_right(st["right"])
-    R = observe_right(right)
+    R = R_pre if R_pre is not None else observe_right(right)
     rps = st["right"].get("ps_ast") if st["right"]["kind"] == "proc" else None
     if R["has_ps"] and rps is None:
         return ("skip", "right post-selection without a known AST"), L, lps, {}
@@ -755,8 +768,35 @@ def left_ps_of(spec):
 
 def run_scenario(scn, ask, on_step=None):
     """-> failure tuple (kind, sig, what) or None"""
+    try:
+        return _run_scenario(scn, ask, on_step)
+    except BuildFailed as e:
+        # every construction step of a generated scenario is a legal call of the public API (components are added on
+        # modes inside the processor, before any herald / detector is declared there)
+        if e.op.get("op") == "add":
+            return ("violation", "legal-add-crashes",
+                    f"Processor.add({e.op['at']}, {e.op['leaf'].get('t')}) on free modes inside the processor raised {e}")
+        return ("broken", "construction-failed", f"{e.op.get('op')} raised {e} while the scenario was being built")
+
+
+def _observe_built(p, what, nested=False):
+    try:
+        return observe_proc(p) if not nested else observe_right(p)
+    except Exception as e:  # noqa
+        raise Unusable(f"{what} was built through accepted Processor.add calls but cannot be observed any more "
+                       f"({type(e).__name__}: {str(e)[:120]})") from e
+
+
+class Unusable(Exception):
+    pass
+
+
+def _run_scenario(scn, ask, on_step=None):
     p = build_left(scn["left"])
-    L = observe_proc(p)
+    try:
+        L = _observe_built(p, "the left processor")
+    except Unusable as e:
+        return ("violation", "composed-processor-unusable", str(e))
     lps = left_ps_of(scn["left"])
     prev = None
     for i, st in enumerate(scn["steps"]):
@@ -765,7 +805,13 @@ def run_scenario(scn, ask, on_step=None):
             right_obj = build_right(st["right"])
         else:
             right_obj = reuse
-        fail, L2, lps2, info = run_step(p, L, lps, st, ask, reuse_obj=right_obj)
+        try:
+            R_pre = _observe_built(right_obj, "the processor to add", nested=True)
+        except Unusable as e:
+            if st["right"]["kind"] == "scn":   # reported by the inner scenario, which is a case of its own
+                raise GenInvalid(str(e)) from e
+            return ("violation", "composed-processor-unusable", str(e))
+        fail, L2, lps2, info = run_step(p, L, lps, st, ask, reuse_obj=right_obj, R_pre=R_pre)
         prev = right_obj
         if on_step:
             on_step(i, st, L, info)
@@ -1354,13 +1400,20 @@ def run(chk: core.Check):
                 "1-3 successive Processor.add(mapping, obj) with obj a component / circuit / processor (whole or "
                 "piecewise, heralds anywhere, internal PERMs, post-selection), mapping as int / list / tuple / dict / "
                 "port names, 12% malformed; plus EVERY injective mapping onto <= 4 left modes for a circuit, a "
-                "herald-free and two heralded processors; distinct = distinct (sizes, right shape, mapping) "
+                "herald-free and two heralded processors, and (>= 2 modes) a processor built component by component "
+                "from numeric phase shifters, PERMs that are not self-inverse and blocking components; plus scenarios "
+                "whose right-hand processors engage every rewriting rule of the automatic simplification of the "
+                "inserted segment (phase shifters on one light path through 3-cycles, wrong-way decoys, exact "
+                "cancellation, adjacent non-commuting PERMs, a left processor ending with a PERM, processors that are "
+                "themselves results of compositions); distinct = distinct (sizes, right shape, mapping) "
                 "signatures; non-trivial = a non-consecutive or non-monotone mapping of >= 2 modes")
     chk.assumptions = [
         "matrices of the left processor and of the added object are taken from their own compute_unitary() "
         "(component matrices are C14, circuit products C01); the model predicts the composed matrix exactly from them",
         "PostSelect parsing/evaluation is exqalibur's; conditions are generated as ASTs and rendered fully parenthesised",
         "non-herald ports of the added processor are compared with the model only (the property does not constrain them)",
+        "the simp-* branch counters classify the inserted segment from the public component list by tracing light "
+        "paths; they only show that the generator reaches the shapes, the verdict never depends on them",
     ]
     chk.required_branches = ["form-int", "form-list", "form-dict", "port-names", "rejected", "perm-needed",
                              "perm-at-offset", "no-perm", "right-heralds", "right-heralds-unsorted", "left-heralds",
@@ -1395,7 +1448,7 @@ def run(chk: core.Check):
             chk.count("generator", "invalid-construction")
     # right-hand processors whose content the automatic simplification of the inserted segment rewrites
     # (phase shifters around PERMs that are not self-inverse, adjacent PERMs, nested compositions)
-    n_s = chk.pick(500, 8000)
+    n_s = chk.pick(500, 5000)
     for i in range(n_s):
         scn = prepare(gen_scenario_simpl(rng, max_cs), rng)
         try:
